@@ -126,6 +126,23 @@ pub enum EmptyForms {
     U,
 }
 
+// explicit discriminants do not change serde's variant index (declaration position) or names
+#[derive(Serialize, postcard_schema::Schema)]
+pub enum Discr {
+    Zulu = 5,
+    Alpha = 1,
+    Mike = 3,
+}
+
+#[derive(Serialize, postcard_schema::Schema)]
+#[repr(u8)]
+pub enum DiscrData {
+    Big(u64) = 200,
+    Small = 2,
+    Named { a: u8 } = 100,
+    Pair(u8, i16) = 0,
+}
+
 #[derive(Serialize, postcard_schema::Schema)]
 pub struct Wide {
     pub i1: i128,
